@@ -39,6 +39,16 @@ def run(tier: str, seed: int) -> int:
                       "features": {"jac": "callable", "callback": r.choice(["none", "false"]), "ftarget": "none", "gtol_callable": False,
                                    "scaler": "none", "update": "reweight", "consistent": True, "switch_at": 1, "trigger_pg": gt},
                       "override": {"gtol": gt, "ftol": 0.0, "maxiter": r.choice([60, 200]), "maxfun": 15000, "maxls": 20}})
+    # thresholds that are exactly zero, in the forms a user may write them (0, 0.0, a numpy zero, a callable returning zero): the run
+    # must not report the projected-gradient test as satisfied before the projected gradient is exactly zero
+    for i in range(n // 8):
+        s = seed * 1_000_003 + 650_000 + i
+        r = random.Random(s)
+        z = r.choice(["int", "float", "np", "callable"])
+        cases.append({"seed": s, "monitors": ["C04", "C02"], "families": ["qp", "qp_softplus", "rosen", "qp_quartic"], "small_budgets": False,
+                      "features": {"jac": "callable", "callback": "none", "ftarget": "none", "gtol_callable": z == "callable", "gtol_zero": z,
+                                   "scaler": "none", "update": "none"},
+                      "override": {"ftol": 0.0, "maxiter": r.choice([60, 200]), "maxfun": 15000, "maxls": 20}})
     return run_property(
         PROP, "harness.props.c04", THEOREMS, MODULES, cases, tier, seed,
         rule="random runs over the configuration lattice (maxiter from 0, maxfun from 1, maxls, ftol, gtol float/callable, "
